@@ -107,6 +107,8 @@ impl StunAgent {
 
     /// Set the local credentials that all messages should be signed with
     pub fn set_local_credentials(&mut self, credentials: MessageIntegrityCredentials) {
+        #[cfg(ystreet_stun_proto_verif)]
+        let _verif = verif_trace::enter(self, format!("\"ev\":\"set_local\",\"key\":\"{}\"", verif_trace::cred_token(&Some(credentials.clone()))));
         self.local_credentials = Some(credentials)
     }
 
@@ -117,6 +119,8 @@ impl StunAgent {
 
     /// Set the remote credentials that all messages should be signed with
     pub fn set_remote_credentials(&mut self, credentials: MessageIntegrityCredentials) {
+        #[cfg(ystreet_stun_proto_verif)]
+        let _verif = verif_trace::enter(self, format!("\"ev\":\"set_remote\",\"key\":\"{}\"", verif_trace::cred_token(&Some(credentials.clone()))));
         self.remote_credentials = Some(credentials)
     }
 
@@ -139,6 +143,8 @@ impl StunAgent {
         to: SocketAddr,
         now: Instant,
     ) -> Result<Transmit<'_>, StunError> {
+        #[cfg(ystreet_stun_proto_verif)]
+        let _verif = verif_trace::enter_send(self, &msg, to, now);
         if msg.has_class(MessageClass::Request) {
             if self
                 .outstanding_requests
@@ -194,6 +200,8 @@ impl StunAgent {
         )
     )]
     pub fn handle_stun<'a>(&mut self, msg: Message<'a>, from: SocketAddr) -> HandleStunReply<'a> {
+        #[cfg(ystreet_stun_proto_verif)]
+        let _verif = verif_trace::enter_recv(self, &msg, from);
         if msg.is_response() {
             let Some(request) = self.take_outstanding_request(&msg.transaction_id()) else {
                 trace!("original request disappeared -> ignoring response");
@@ -300,6 +308,8 @@ impl StunAgent {
         skip(self),
     )]
     pub fn poll<'a>(&mut self, now: Instant) -> StunAgentPollRet<'a> {
+        #[cfg(ystreet_stun_proto_verif)]
+        let _verif = verif_trace::enter(self, format!("\"ev\":\"poll\",\"now\":{}", verif_trace::rel_ms(now)));
         let mut lowest_wait: Option<Instant> = None;
         let mut timeout = None;
         let mut cancelled = None;
@@ -609,6 +619,8 @@ impl<'a> StunRequestMut<'a> {
 
     /// Do not retransmit further
     pub fn cancel_retransmissions(&mut self) {
+        #[cfg(ystreet_stun_proto_verif)]
+        let _verif = verif_trace::enter(self.agent, format!("\"ev\":\"cancel_rt\",\"tid\":\"{}\"", self.transaction_id));
         if let Some(state) = self.agent.mut_request_state(self.transaction_id) {
             state.send_cancelled = true;
         }
@@ -616,6 +628,8 @@ impl<'a> StunRequestMut<'a> {
 
     /// Do not wait for any kind of response
     pub fn cancel(&mut self) {
+        #[cfg(ystreet_stun_proto_verif)]
+        let _verif = verif_trace::enter(self.agent, format!("\"ev\":\"cancel\",\"tid\":\"{}\"", self.transaction_id));
         if let Some(state) = self.agent.mut_request_state(self.transaction_id) {
             state.send_cancelled = true;
             state.recv_cancelled = true;
@@ -644,6 +658,8 @@ impl<'a> StunRequestMut<'a> {
         retransmits: u32,
         last_retransmit_timeout: Duration,
     ) {
+        #[cfg(ystreet_stun_proto_verif)]
+        let _verif = verif_trace::enter(self.agent, format!("\"ev\":\"configure\",\"tid\":\"{}\",\"rto\":{},\"n\":{},\"last\":{}", self.transaction_id, initial_rto.as_millis(), retransmits, last_retransmit_timeout.as_millis()));
         if let Some(state) = self.agent.mut_request_state(self.transaction_id) {
             match state.transport {
                 TransportType::Udp => {
@@ -710,6 +726,154 @@ impl From<StunParseError> for StunError {
 impl From<StunWriteError> for StunError {
     fn from(e: StunWriteError) -> Self {
         StunError::WriteError(e)
+    }
+}
+
+/// Verification hooks (only with `--cfg ystreet_stun_proto_verif`): one NDJSON line per public call of the agent,
+/// written when the call returns, with the call's arguments and the agent's complete state after the call.
+/// Inert unless the environment variable STUN_VERIF_TRACE names a file.
+#[cfg(ystreet_stun_proto_verif)]
+pub(crate) mod verif_trace {
+    use super::*;
+    use std::io::Write;
+    use std::sync::{Mutex, OnceLock};
+
+    static OUT: OnceLock<Option<Mutex<std::fs::File>>> = OnceLock::new();
+    static BASE: OnceLock<Instant> = OnceLock::new();
+
+    pub(crate) fn rel_ms(i: Instant) -> i128 {
+        let base = *BASE.get_or_init(|| i);
+        if i >= base {
+            (i - base).as_millis() as i128
+        } else {
+            -((base - i).as_millis() as i128)
+        }
+    }
+
+    pub(crate) struct Guard {
+        agent: *const StunAgent,
+        call: String,
+    }
+
+    pub(crate) fn enter(agent: &StunAgent, call: String) -> Guard {
+        Guard { agent: agent as *const StunAgent, call }
+    }
+
+    fn class_str(c: MessageClass) -> &'static str {
+        match c {
+            MessageClass::Request => "request",
+            MessageClass::Indication => "indication",
+            MessageClass::Success => "success",
+            MessageClass::Error => "error",
+        }
+    }
+
+    /// credentials as a token (their identity is all the trace needs)
+    pub(crate) fn cred_token(c: &Option<MessageIntegrityCredentials>) -> String {
+        match c {
+            None => "none".to_string(),
+            Some(c) => format!("k{}", hash(format!("{:?}", c).as_bytes())),
+        }
+    }
+
+    fn hash(bytes: &[u8]) -> String {
+        let mut h: u64 = 0xcbf29ce484222325;
+        for b in bytes {
+            h = (h ^ *b as u64).wrapping_mul(0x100000001b3);
+        }
+        format!("{}:{:016x}", bytes.len(), h)
+    }
+
+    pub(crate) fn enter_send(agent: &StunAgent, msg: &MessageBuilder<'_>, to: SocketAddr, now: Instant) -> Guard {
+        let cls = [MessageClass::Request, MessageClass::Indication, MessageClass::Success, MessageClass::Error]
+            .into_iter()
+            .find(|c| msg.has_class(*c))
+            .unwrap();
+        let sealed = msg.has_attribute(MessageIntegrity::TYPE) || msg.has_attribute(MessageIntegritySha256::TYPE);
+        enter(
+            agent,
+            format!(
+                "\"ev\":\"send\",\"cls\":\"{}\",\"tid\":\"{}\",\"to\":\"{}\",\"sealed\":{},\"pay\":\"{}\",\"now\":{}",
+                class_str(cls),
+                msg.transaction_id(),
+                to,
+                sealed,
+                hash(&msg.build()),
+                rel_ms(now)
+            ),
+        )
+    }
+
+    pub(crate) fn enter_recv(agent: &StunAgent, msg: &Message<'_>, from: SocketAddr) -> Guard {
+        let has_integ = msg.has_attribute(MessageIntegrity::TYPE) || msg.has_attribute(MessageIntegritySha256::TYPE);
+        // what the response's integrity is worth under the credentials configured at this moment
+        let integ = if !has_integ {
+            "none"
+        } else if agent.remote_credentials.as_ref().map_or(false, |c| msg.validate_integrity(c).is_ok()) {
+            "valid"
+        } else {
+            "invalid"
+        };
+        enter(
+            agent,
+            format!(
+                "\"ev\":\"recv\",\"cls\":\"{}\",\"tid\":\"{}\",\"from\":\"{}\",\"integ\":\"{}\"",
+                class_str(msg.class()),
+                msg.transaction_id(),
+                from,
+                integ
+            ),
+        )
+    }
+
+    impl Drop for Guard {
+        fn drop(&mut self) {
+            let out = OUT.get_or_init(|| {
+                std::env::var("STUN_VERIF_TRACE").ok().and_then(|p| {
+                    std::fs::OpenOptions::new().create(true).append(true).open(p).ok().map(Mutex::new)
+                })
+            });
+            let Some(out) = out else { return };
+            // SAFETY: the guard is created from a live reference at the top of a method of the agent (or of a
+            // request handle borrowing it) and dropped before that method returns
+            let a: &StunAgent = unsafe { &*self.agent };
+            let mut reqs: Vec<String> = a
+                .outstanding_requests
+                .values()
+                .map(|r| {
+                    format!(
+                        "{{\"tid\":\"{}\",\"to\":\"{}\",\"sealed\":{},\"pay\":\"{}\",\"sched\":{:?},\"last\":{},\"idx\":{},\"lastSend\":{},\"sc\":{},\"rc\":{}}}",
+                        r.transaction_id,
+                        r.to,
+                        r.request_had_credentials,
+                        hash(&r.bytes),
+                        r.timeouts_ms,
+                        r.last_retransmit_timeout_ms,
+                        r.timeout_i,
+                        r.last_send_time.map_or(-1, rel_ms),
+                        r.send_cancelled,
+                        r.recv_cancelled
+                    )
+                })
+                .collect();
+            reqs.sort();
+            let mut val: Vec<String> = a.validated_peers.iter().map(|p| format!("\"{}\"", p)).collect();
+            val.sort();
+            let line = format!(
+                "{{\"agent\":{},\"thread\":\"{:?}\",\"transport\":\"{}\",{},\"post\":{{\"out\":[{}],\"val\":[{}],\"rcred\":\"{}\",\"lcred\":\"{}\"}}}}\n",
+                a.id,
+                std::thread::current().id(),
+                a.transport,
+                self.call,
+                reqs.join(","),
+                val.join(","),
+                cred_token(&a.remote_credentials),
+                cred_token(&a.local_credentials)
+            );
+            if let Ok(mut f) = out.lock() {
+                let _ = f.write_all(line.as_bytes());
+            }
+        }
     }
 }
 
